@@ -227,7 +227,16 @@ def run(ch, ctx):
             r = ch.choice('c14.consensus.r', (2, 3, 2))
             world.runout_prefs = (r, r, r, None)
         world.run()
-    except (Violation, EngineCrash, Stuck):
+    except EngineCrash as c:
+        if world is not None:
+            note_trace(world, ctx)
+            if mon.offer_expected is not None and any(x is not None and x > 1 for _, x in mon.selected):
+                raise Violation('C14.crash', f'after the run-out choice {mon.selected} (all-in on street {mon.allin_street}) the hand '
+                                f'is not run out: {c}', rule='crash')
+        else:
+            ctx.notes['config'] = cfg
+        raise
+    except (Violation, Stuck):
         if world is not None:
             note_trace(world, ctx)
         else:
